@@ -251,6 +251,6 @@ def sample_view(spec):
         {"steps": spec["steps"][:4], "nsteps": len(spec["steps"])}
 
 
-PARTS = {"abf": {"strategy": spec_abf, "check": check_abf, "examples": {"quick": 3000, "thorough": 60000}, "sample": sample_view}}
+PARTS = {"abf": {"strategy": spec_abf, "check": check_abf, "examples": {"quick": 15000, "thorough": 60000}, "sample": sample_view}}
 REQUIRED_STRATA = {"all": ["abf:S", "abf:L", "abf:per", "abf:harm", "abf:sub", "abf:newrun", "abf:ramp_mid", "abf:outside",
                            "abf:multi_sample_bin", "abf:nv2", "abf:nv3"]}
